@@ -21,6 +21,7 @@ def check(run):
     from checks import _c16_theorems
     run.prove(_c16_theorems.THEOREMS)
     rng = run.rng
+    treegen.init_special(run.harness())      # empty-subtree roots as leaf values
     quick = run.tier == "quick"
     zkh = run.harness()
     kinds = ["set", "set", "del", "app", "app", "range"]
@@ -167,6 +168,21 @@ def check(run):
             if len(run._corr) < 3:
                 t = next(t for t in range(len(seq)) if I[t] != Mo[t])
                 run._corr.append({"stream": "metadata", "sequence": seq[:t + 1], "impl": I[t], "model": Mo[t]})
+    # (f) the RLN object itself on a persistent location, through BOTH constructors (`RLN::new` with a "tree_config" member,
+    #     `RLN::new_with_params` with the bare tree configuration): write, flush, drop, construct again on the same location
+    import os as _os, shutil as _sh, tempfile as _tf2
+    pseqs = []
+    for k in range(4 if quick else 40):
+        loc = _tf2.mkdtemp(prefix="zkrlnp-", dir=_os.environ.get("TMPDIR")); _sh.rmtree(loc)
+        ctor = f"rln {'new_at' if k % 2 == 0 else 'new_params_at'} {loc}"
+        seq = [ctor]
+        for _ in range(rng.randint(1, 4)):
+            seq.append(rng.choice([f"rln set_leaf {hex(rng.randrange(20))} {hex(rng.randint(1, 1 << 60))}", f"rln set_next {hex(rng.randint(1, 1 << 60))}",
+                                   f"rln set_leaves_from {hex(rng.randrange(10))} {hex(rng.randint(1, 99))},{hex(rng.randint(1, 99))}", f"rln delete {hex(rng.randrange(6))}"]))
+        seq += ["rln root", "rln leaves_set", "rln flush", ctor, "rln root", "rln leaves_set", "rln get_leaf 0x0", "rln get_leaf 0x1", "rln get_proof 0x1",
+                f"rln set_next {hex(rng.randint(1, 99))}", "rln root", "rln flush", ctor, "rln root", "rln leaves_set"]
+        pseqs.append(seq)
+    run.differential("rln-object-persistence", pseqs, shrink=False)
     # (e) write, flush, DIE (abort: nothing is dropped, no destructor runs), then another process opens the location: everything
     #     acknowledged before the successful flush must be there — every mutator, including the batch arms, and sequences whose
     #     only writes after the previous flush are batch calls
@@ -227,5 +243,5 @@ def check(run):
     run.cov["fault_sequences"] = cases
     run.cov["fault_sequences_where_the_failure_fired"] = fired_total
     run.sample({"fault_sequence": lines_all[0][:10], "impl": impl[:10]})
-    run.rules.append("(e) write / flush / abort the process / open the location from a new process: everything acknowledged before the successful flush must be read back (every mutator incl. batch arms as the only write since the previous flush); (d) 400 (thorough 6000) cycles of write, flush, drop, re-create on the same location at once, each checking that the flushed leaf and leaf count are still there; (c) metadata set / cleared / re-set after an injected write failure (the caller's retry) across close-reopen cycles, read back against the last acknowledged value; (a) random histories on an on-disk tree under five storage configurations (cache size, flush period, mode, compression), metadata, close, reopen with the same or a different depth argument, every leaf / subtree root / proof / metadata compared, then further operations and a second reopen; (b) for every operation of every history and EVERY storage-write position k inside it (hook H1 fails the k-th put / put_batch / flush): the operation must report an error, and after reopening every position it did not address must hold the last acknowledged value; the model predicts the exact stored state; distinct = distinct (history, operation, k)")
+    run.rules.append("(f) the RLN object on a persistent location through RLN::new and RLN::new_with_params: write, flush, drop, construct again; (e) write / flush / abort the process / open the location from a new process: everything acknowledged before the successful flush must be read back (every mutator incl. batch arms as the only write since the previous flush); (d) 400 (thorough 6000) cycles of write, flush, drop, re-create on the same location at once, each checking that the flushed leaf and leaf count are still there; (c) metadata set / cleared / re-set after an injected write failure (the caller's retry) across close-reopen cycles, read back against the last acknowledged value; (a) random histories on an on-disk tree under five storage configurations (cache size, flush period, mode, compression), metadata, close, reopen with the same or a different depth argument, every leaf / subtree root / proof / metadata compared, then further operations and a second reopen; (b) for every operation of every history and EVERY storage-write position k inside it (hook H1 fails the k-th put / put_batch / flush): the operation must report an error, and after reopening every position it did not address must hold the last acknowledged value; the model predicts the exact stored state; distinct = distinct (history, operation, k)")
     run.confirm_witnesses()
